@@ -56,7 +56,7 @@ static bool slurp(const std::string& path, std::vector<char>& buf){
   buf.assign(std::istreambuf_iterator<char>(f), std::istreambuf_iterator<char>()); return true; }
 
 static long g_file=0; static int g_entry=0; static std::string g_id;
-static void step(const char* s){ fprintf(stderr,"@%ld %d %s %s\n",g_file,g_entry,g_id.c_str(),s); fflush(stderr); alarm(60); }
+static void step(const char* s){ fprintf(stderr,"@%ld %d %s %s\n",g_file,g_entry,g_id.c_str(),s); fflush(stderr); alarm(20); }
 static void on_alarm(int){ const char m[]="\nC07-TIMEOUT\n"; ssize_t r=write(2,m,sizeof m-1); (void)r; _exit(77); }
 
 static std::string oneline(const char* w){ std::string s(w); for(char& c: s) if(c=='\n'||c=='\r') c=' '; if(s.size()>160) s.resize(160); return s; }
